@@ -220,4 +220,325 @@ theorem nodupFrames_frame_shift (k : Int) (rows : List FullRow) (h : NodupFrames
   simp only [Function.comp] at hab
   exact hne (by omega)
 
+/-! ## (b) renumbering the frames: many particles -/
+
+/-- every frame number of a multi-particle table increased by the same `k` -/
+def shiftTable (k : Int) (t : List PRow) : List PRow := t.map fun r => (r.1, r.2.1 + k, r.2.2)
+
+theorem particleIds_frame_shift (k : Int) (t : List PRow) :
+    particleIds (shiftTable k t) = particleIds t := by
+  unfold particleIds shiftTable
+  rw [List.foldr_map]
+
+theorem rowsOf_frame_shift (k : Int) (t : List PRow) (p : Nat) :
+    rowsOf (shiftTable k t) p = shiftFrames k (rowsOf t p) := by
+  unfold rowsOf shiftTable shiftFrames
+  rw [List.filter_map, List.map_map, List.map_map]
+  rfl
+
+/-- the per-particle tables (`msds` of `imsd` / `emsd`) do not move -/
+theorem perParticle_frame_shift (k : Int) (t : List PRow) (d : Nat) (mpp fps : Rat) (maxLag : Nat) :
+    perParticle (shiftTable k t) d mpp fps maxLag = perParticle t d mpp fps maxLag := by
+  unfold perParticle
+  rw [particleIds_frame_shift]
+  apply List.map_congr_left
+  intro p _
+  rw [rowsOf_frame_shift, msd_frame_shift]
+
+/-- **(b) imsd**: every cell (lag, particle) of every statistic of the per-particle matrix is unchanged
+when all frames of the table are renumbered by `k` (the particle columns and the lag axis —
+`particleIds`, `lagCount` — too) -/
+theorem imsd_frame_shift (k : Int) (t : List PRow) (d : Nat) (mpp fps : Rat) (maxLag : Nat)
+    (col : Out → Option Rat) (p lag : Nat) :
+    imsdCell (perParticle (shiftTable k t) d mpp fps maxLag) col p lag
+        = imsdCell (perParticle t d mpp fps maxLag) col p lag
+      ∧ particleIds (shiftTable k t) = particleIds t
+      ∧ lagCount (perParticle (shiftTable k t) d mpp fps maxLag)
+        = lagCount (perParticle t d mpp fps maxLag) := by
+  rw [perParticle_frame_shift, particleIds_frame_shift]
+  exact ⟨rfl, rfl, rfl⟩
+
+/-- **(b) emsd**: every column of the ensemble average at every lag (NaN in the same places), its
+`N` column and its lag axis are unchanged when all frames are renumbered by `k` -/
+theorem emsd_frame_shift (k : Int) (t : List PRow) (d : Nat) (mpp fps : Rat) (maxLag : Nat)
+    (col : Out → Option Rat) (lag : Nat) :
+    emsdAt (perParticle (shiftTable k t) d mpp fps maxLag) col lag
+        = emsdAt (perParticle t d mpp fps maxLag) col lag
+      ∧ emsdN (perParticle (shiftTable k t) d mpp fps maxLag) lag
+        = emsdN (perParticle t d mpp fps maxLag) lag
+      ∧ lagCount (perParticle (shiftTable k t) d mpp fps maxLag)
+        = lagCount (perParticle t d mpp fps maxLag) := by
+  rw [perParticle_frame_shift]
+  exact ⟨rfl, rfl, rfl⟩
+
+/-! ## (c) the unit of length -/
+
+/-- every position multiplied by `c` (the same lengths in another unit) -/
+def scalePos (c : Rat) (rows : List FullRow) : List FullRow := rows.map fun r => (r.1, r.2.map (· * c))
+
+/-- an output row in the other unit: `<c>` times `c`, `<c^2>` and `msd` times `c²`; lag, `lagt`, `N`
+as they are; NaN stays NaN -/
+def Out.scale (c : Rat) (o : Out) : Out :=
+  { o with disp := o.disp.map (Option.map (· * c)),
+           sqd := o.sqd.map (Option.map (· * (c * c))),
+           msd := o.msd.map (· * (c * c)) }
+
+theorem getD_map_mul (l : List Rat) (i : Nat) (c : Rat) : (l.map (· * c)).getD i 0 = l.getD i 0 * c := by
+  simp only [List.getD_eq_getElem?_getD, List.getElem?_map]
+  cases l[i]? with
+  | none => simp
+  | some x => rfl
+
+/-- scaling the positions by `c` and converting with `mpp` is converting with `c · mpp` -/
+theorem coord_scalePos (mpp c : Rat) (col : Nat) (rows : List FullRow) :
+    coord mpp col (scalePos c rows) = coord (c * mpp) col rows := by
+  unfold coord scalePos
+  rw [List.map_map]
+  apply List.map_congr_left
+  intro r _
+  simp only [Function.comp, getD_map_mul, Prod.mk.injEq, true_and]
+  ring
+
+theorem scalePos_length (c : Rat) (rows : List FullRow) : (scalePos c rows).length = rows.length := by
+  simp [scalePos]
+
+theorem sortRows_scalePos (c : Rat) (rows : List FullRow) :
+    sortRows (scalePos c rows) = scalePos c (sortRows rows) := by
+  unfold sortRows scalePos
+  symm
+  apply List.map_mergeSort
+  intro a _ b _
+  rfl
+
+/-- **(c) `msd_mpp_scale`**: for EVERY table, both code paths and all columns — giving the positions
+in a unit `c` times smaller (every position multiplied by `c`) and converting with `mpp` is the same
+as converting the original positions with `c · mpp`: the unit of length enters through the product
+`position · mpp` only -/
+theorem msd_mpp_scale (c : Rat) (rows : List FullRow) (d : Nat) (mpp fps : Rat) (maxLag : Nat) :
+    msd (scalePos c rows) d mpp fps maxLag = msd rows d (c * mpp) fps maxLag := by
+  unfold msd
+  simp only [sortRows_scalePos]
+  have hh : (scalePos c (sortRows rows)).head?
+      = (sortRows rows).head?.map fun r => (r.1, r.2.map (· * c)) := by
+    unfold scalePos; rw [List.head?_map]
+  have hl : (scalePos c (sortRows rows)).getLast?
+      = (sortRows rows).getLast?.map fun r => (r.1, r.2.map (· * c)) := by
+    unfold scalePos; rw [List.getLast?_map]
+  rw [hh, hl]
+  cases (sortRows rows).head? with
+  | none => rfl
+  | some a =>
+    cases (sortRows rows).getLast? with
+    | none => rfl
+    | some z =>
+      simp only [Option.map_some, scalePos_length, fftOut, gapsOut, coord_scalePos]
+
+theorem coord_rescale (mpp c : Rat) (col : Nat) (rows : List FullRow) :
+    coord (c * mpp) col rows = (coord mpp col rows).map fun r => (r.1, r.2 * c) := by
+  unfold coord
+  rw [List.map_map]
+  apply List.map_congr_left
+  intro r _
+  simp only [Function.comp, Prod.mk.injEq, true_and]
+  ring
+
+theorem dispDef_rescale (mpp c : Rat) (col : Nat) (rows : List FullRow) (lag : Nat) :
+    dispDef (coord (c * mpp) col rows) lag = (dispDef (coord mpp col rows) lag).map (· * c) := by
+  unfold dispDef
+  rw [coord_rescale, diffs_scale, ← meanOpt_scale]
+
+theorem sqDef_rescale (mpp c : Rat) (col : Nat) (rows : List FullRow) (lag : Nat) :
+    sqDef (coord (c * mpp) col rows) lag = (sqDef (coord mpp col rows) lag).map (· * (c * c)) := by
+  unfold sqDef
+  rw [coord_rescale, diffs_scale, ← meanOpt_scale, List.map_map, List.map_map]
+  congr 1
+  apply List.map_congr_left
+  intro x _
+  simp only [Function.comp, sq]; ring
+
+theorem sumOpt_scale (k : Rat) : ∀ (l : List (Option Rat)),
+    sumOpt (l.map (Option.map (· * k))) = (sumOpt l).map (· * k)
+  | [] => by simp [sumOpt]
+  | none :: l => by simp [sumOpt]
+  | some a :: l => by
+    have ih := sumOpt_scale k l
+    simp only [List.map_cons, Option.map_some, sumOpt, ih]
+    cases sumOpt l with
+    | none => rfl
+    | some b => simp only [Option.map_some]; congr 1; ring
+
+theorem msdDef_rescale (mpp c : Rat) (d : Nat) (rows : List FullRow) (lag : Nat) :
+    msdDef (c * mpp) d rows lag = (msdDef mpp d rows lag).map (· * (c * c)) := by
+  unfold msdDef
+  rw [← sumOpt_scale, List.map_map]
+  congr 1
+  apply List.map_congr_left
+  intro col _
+  exact sqDef_rescale mpp c col rows lag
+
+/-- **(c), the definition**: with every position multiplied by `c` the statistic is multiplied by
+`c²` (NaN stays NaN), at every lag, for every table -/
+theorem msdDef_length_unit (mpp c : Rat) (d : Nat) (rows : List FullRow) (lag : Nat) :
+    msdDef mpp d (scalePos c rows) lag = (msdDef mpp d rows lag).map (· * (c * c)) := by
+  unfold msdDef
+  simp only [coord_scalePos]
+  exact msdDef_rescale mpp c d rows lag
+
+theorem scalePos_frames (c : Rat) (rows : List FullRow) :
+    (scalePos c rows).map (·.1) = rows.map (·.1) := by
+  simp [scalePos, List.map_map, Function.comp_def]
+
+theorem defRow_rescale (rows : List FullRow) (d : Nat) (mpp c fps : Rat) (m : Nat) :
+    defRow rows d (c * mpp) fps m = Out.scale c (defRow rows d mpp fps m) := by
+  simp only [defRow, Out.scale, dispDef_rescale, sqDef_rescale, msdDef_rescale, List.map_map]
+  rfl
+
+/-- converting with `c · mpp` instead of `mpp`: every row of `msd` in the other unit -/
+theorem msd_mpp_mul (c : Rat) (rows : List FullRow) (d : Nat) (mpp fps : Rat) (maxLag : Nat)
+    (hnd : NodupFrames rows) :
+    msd rows d (c * mpp) fps maxLag = (msd rows d mpp fps maxLag).map (Out.scale c) := by
+  rw [msd_eq_rows rows d (c * mpp) fps maxLag hnd, msd_eq_rows rows d mpp fps maxLag hnd,
+    List.map_map]
+  apply List.map_congr_left
+  intro i _
+  exact defRow_rescale rows d mpp c fps (i + 1)
+
+/-- **(c) the unit of length enters as the factor `c²` and nowhere else**: for every trajectory with
+one row per frame (any length, gaps, start frame, row order) and every rational `c`, `msd` of the
+trajectory with every position multiplied by `c` is `msd` of the trajectory with `<c>` multiplied by
+`c`, `<c^2>` and `msd` by `c²` — the same lags listed, the same `lagt`, NaN in the same places, the
+same `N` -/
+theorem msd_length_unit (c : Rat) (rows : List FullRow) (d : Nat) (mpp fps : Rat) (maxLag : Nat)
+    (hnd : NodupFrames rows) :
+    msd (scalePos c rows) d mpp fps maxLag = (msd rows d mpp fps maxLag).map (Out.scale c) := by
+  rw [msd_mpp_scale, msd_mpp_mul c rows d mpp fps maxLag hnd]
+
+/-- what `Out.scale` leaves alone -/
+theorem Out.scale_keeps (c : Rat) (o : Out) :
+    (Out.scale c o).lag = o.lag ∧ (Out.scale c o).lagt = o.lagt ∧ (Out.scale c o).n = o.n :=
+  ⟨rfl, rfl, rfl⟩
+
+/-! ### the ensemble in another unit -/
+
+/-- every position of a multi-particle table multiplied by `c` -/
+def scaleTable (c : Rat) (t : List PRow) : List PRow := t.map fun r => (r.1, r.2.1, r.2.2.map (· * c))
+
+/-- the per-particle tables with every row in the other unit -/
+def scalePer (c : Rat) (per : List (Nat × List Out)) : List (Nat × List Out) :=
+  per.map fun x => (x.1, x.2.map (Out.scale c))
+
+theorem particleIds_scaleTable (c : Rat) (t : List PRow) : particleIds (scaleTable c t) = particleIds t := by
+  unfold particleIds scaleTable
+  rw [List.foldr_map]
+
+theorem rowsOf_scaleTable (c : Rat) (t : List PRow) (p : Nat) :
+    rowsOf (scaleTable c t) p = scalePos c (rowsOf t p) := by
+  unfold rowsOf scaleTable scalePos
+  rw [List.filter_map, List.map_map, List.map_map]
+  rfl
+
+theorem perParticle_length_unit (c : Rat) (t : List PRow) (d : Nat) (mpp fps : Rat) (maxLag : Nat)
+    (hnd : ∀ p ∈ particleIds t, NodupFrames (rowsOf t p)) :
+    perParticle (scaleTable c t) d mpp fps maxLag = scalePer c (perParticle t d mpp fps maxLag) := by
+  unfold perParticle scalePer
+  rw [particleIds_scaleTable, List.map_map]
+  apply List.map_congr_left
+  intro p hp
+  simp only [Function.comp]
+  rw [rowsOf_scaleTable, msd_length_unit c _ d mpp fps maxLag (hnd p hp)]
+
+theorem rowAt_scale (c : Rat) (outs : List Out) (lag : Nat) :
+    rowAt (outs.map (Out.scale c)) lag = (rowAt outs lag).map (Out.scale c) := by
+  unfold rowAt
+  rw [List.find?_map]
+  rfl
+
+theorem sum_map_mul_right {α} (l : List α) (f : α → Rat) (k : Rat) :
+    (l.map fun x => f x * k).sum = (l.map f).sum * k := by
+  induction l with
+  | nil => simp
+  | cons x xs ih => simp only [List.map_cons, List.sum_cons, ih]; ring
+
+theorem wmean_scale (l : List (Rat × Rat)) (k : Rat) :
+    wmean (l.map fun x => (x.1, x.2 * k)) = (wmean l).map (· * k) := by
+  unfold wmean
+  by_cases h : l.length = 0
+  · simp [h]
+  · simp only [List.length_map, h, if_false, Option.map_some, List.map_map, Function.comp_def]
+    have : (l.map fun x => x.1 * (x.2 * k)) = l.map fun x => x.1 * x.2 * k := by
+      apply List.map_congr_left; intro x _; ring
+    rw [this, sum_map_mul_right]
+    congr 1; ring
+
+/-- a column that is multiplied by `k` in the other unit: so is its ensemble average -/
+theorem emsdAt_scale (c k : Rat) (per : List (Nat × List Out)) (col : Out → Option Rat)
+    (hcol : ∀ o, col (Out.scale c o) = (col o).map (· * k)) (lag : Nat) :
+    emsdAt (scalePer c per) col lag = (emsdAt per col lag).map (· * k) := by
+  rw [emsdAt_eq_wmean, emsdAt_eq_wmean, ← wmean_scale]
+  congr 1
+  unfold contrib scalePer
+  rw [List.filterMap_map, List.map_filterMap]
+  apply List.filterMap_congr
+  intro x _
+  simp only [Function.comp, rowAt_scale]
+  cases rowAt x.2 lag with
+  | none => rfl
+  | some o =>
+    simp only [Option.map_some, Option.bind_some, hcol]
+    cases col o with
+    | none => rfl
+    | some v => rfl
+
+theorem emsdN_scale (c : Rat) (per : List (Nat × List Out)) (lag : Nat) :
+    emsdN (scalePer c per) lag = emsdN per lag := by
+  unfold emsdN scalePer
+  rw [List.filterMap_map]
+  congr 1
+  apply List.filterMap_congr
+  intro x _
+  simp only [Function.comp, rowAt_scale]
+  cases rowAt x.2 lag with
+  | none => rfl
+  | some o => rfl
+
+/-- **(c) emsd**: every position of the table multiplied by `c` — the ensemble `msd` and every
+`<c^2>` column are multiplied by `c²`, every `<c>` column by `c` (NaN stays NaN), at every lag -/
+theorem emsd_length_unit (c : Rat) (t : List PRow) (d : Nat) (mpp fps : Rat) (maxLag lag : Nat)
+    (hnd : ∀ p ∈ particleIds t, NodupFrames (rowsOf t p)) :
+    emsdAt (perParticle (scaleTable c t) d mpp fps maxLag) Out.msd lag
+        = (emsdAt (perParticle t d mpp fps maxLag) Out.msd lag).map (· * (c * c))
+      ∧ (∀ i, emsdAt (perParticle (scaleTable c t) d mpp fps maxLag) (fun o => o.sqd.getD i none) lag
+        = (emsdAt (perParticle t d mpp fps maxLag) (fun o => o.sqd.getD i none) lag).map (· * (c * c)))
+      ∧ (∀ i, emsdAt (perParticle (scaleTable c t) d mpp fps maxLag) (fun o => o.disp.getD i none) lag
+        = (emsdAt (perParticle t d mpp fps maxLag) (fun o => o.disp.getD i none) lag).map (· * c)) := by
+  rw [perParticle_length_unit c t d mpp fps maxLag hnd]
+  have hget : ∀ (l : List (Option Rat)) (i : Nat) (k : Rat),
+      (l.map (Option.map (· * k))).getD i none = (l.getD i none).map (· * k) := by
+    intro l i k
+    simp only [List.getD_eq_getElem?_getD, List.getElem?_map]
+    cases l[i]? with
+    | none => rfl
+    | some x => rfl
+  refine ⟨emsdAt_scale c (c * c) _ _ (fun _ => rfl) lag, ?_, ?_⟩
+  · intro i
+    exact emsdAt_scale c (c * c) _ _ (fun o => hget o.sqd i (c * c)) lag
+  · intro i
+    exact emsdAt_scale c c _ _ (fun o => hget o.disp i c) lag
+
+/-- **(c) emsd, `N` and lags**: the weights and the lag axis do not see the unit of length -/
+theorem emsdN_length_unit (c : Rat) (t : List PRow) (d : Nat) (mpp fps : Rat) (maxLag lag : Nat)
+    (hnd : ∀ p ∈ particleIds t, NodupFrames (rowsOf t p)) :
+    emsdN (perParticle (scaleTable c t) d mpp fps maxLag) lag
+        = emsdN (perParticle t d mpp fps maxLag) lag
+      ∧ lagCount (perParticle (scaleTable c t) d mpp fps maxLag)
+        = lagCount (perParticle t d mpp fps maxLag) := by
+  rw [perParticle_length_unit c t d mpp fps maxLag hnd]
+  refine ⟨emsdN_scale c _ lag, ?_⟩
+  unfold lagCount scalePer
+  rw [List.map_map]
+  congr 1
+  apply List.map_congr_left
+  intro x _
+  simp [Function.comp]
+
 end TrackpyV.MSD
